@@ -491,6 +491,20 @@ theorem cached_equals_original_real (c : Cache) (req : Req) (es : List Ev)
   rw [h4', hs]
   rfl
 
+/-- … the same with the hypothesis split into its parts: all lines of the BODY shorter than 80 KiB and a
+    URL shorter than 80 KiB − 10 (that the body ends in a line feed is established by the commit step) -/
+theorem cached_equals_original_real' (c : Cache) (req : Req) (es : List Ev)
+    (rx : List Bytes) (u : Url) (e : Bytes) (hu : UrlClean u) (hshort : Real.shortLines (bodyOf rx))
+    (hulen : u.length + 10 < 81920) (hfree : c req.path = none)
+    (hrun : (runTask (P := Real.model) c req .start es).2 = .done (.downloaded rx u))
+    (hentry : (runTask (P := Real.model) c req .start es).1 req.path = some (.file e)) :
+    e = bodyOf rx ++ trailer u ∧
+    ∃ t, Real.model.stream rx = some (bodyOf rx, t) ∧ Real.parse e = some { t with url := some u } := by
+  obtain ⟨he, hnl⟩ := cached_entry_shape Real.laws c req es rx u e hfree hrun hentry
+  have hE : Real.shortLines e := he ▸ Real.shortLines_entry (bodyOf rx) u hshort hnl hulen
+  obtain ⟨h1, _, h3⟩ := cached_equals_original_real c req es rx u e hu hE hfree hrun hentry
+  exact ⟨h1, h3⟩
+
 /-- a sufficient condition for the hypothesis: an entry shorter than 80 KiB has short lines -/
 theorem shortLines_of_length (e : Bytes) (h : e.length < 81920) : Real.shortLines e := by
   intro a seg b he _
@@ -922,6 +936,11 @@ example : File.runTask empty binReq .start [.lookup, .status 200 true, .chunk f1
     [.lookup, .status 200 true, .chunk f1 true, .drop, .chunk f2 true, .eof okIo]
     (by intro rx u h; rw [hd] at h; cases h)
   exact Prod.ext h hd
+
+/-- the machines the compiled model runs in the correspondence check are the step functions the
+    theorems are about -/
+example : Real.machine.step = step (P := Real.model) := rfl
+example : File.machine.step = File.step := rfl
 
 end examples
 
